@@ -668,6 +668,21 @@ example :
 example : (specHistory demoHistory {}).1.Wf ∧ (specHistory demoHistory {}).1 ≠ {} := by
   exact ⟨(history_refines_wf demoHistory {} demo_in_range wf_init).2, by decide⟩
 
+/-- the generic step on the operations added for the second audit round: an HPM.1 description with a backslash, an
+OEM link type handed over as `TYPE_OEM0`, a fan level for an R2.0 tray (FRU 3 of the power-on BMC) - hypotheses
+satisfied, results not trivial -/
+example :
+    runModel (.getComponentDescription 1) descrState = present (run (.getComponentDescription 1) descrState) ∧
+    (run (.getComponentDescription 1) descrState).2 = .text [102, 119, 92, 117, 112, 100, 97, 116, 101] ∧
+    (run (.getComponentDescription 5) descrState).2 = .error 0x82 ∧
+    runModel (.setPortStateType8 1 5 oemPort) {} = present (run (.setPortStateType8 1 5 oemPort) {}) ∧
+    (get_port 1 5 (run (.setPortStateType8 1 5 oemPort) {}).1).linkType = 0xf0 ∧
+    runModel (.setFanLevel 3 9) {} = present (run (.setFanLevel 3 9) {}) ∧
+    (get_fan 3 {}).r3 = false ∧ (get_fan 3 (run (.setFanLevel 3 9) {}).1).overrideLevel = 9 := by
+  refine ⟨model_refines_oracle _ _ (by simp [Call.InRange]) shipped_component_description_wrong.1, by decide, by decide,
+    model_refines_oracle _ _ ?_ wf_init, by decide, model_refines_oracle _ _ (by simp [Call.InRange]) wf_init, by decide, by decide⟩
+  exact ⟨by decide, by decide, rfl, ⟨by decide, by decide, by decide⟩, by decide, by decide⟩
+
 /-- in-range predicates are not vacuous at their borders: VLAN 4095 is accepted and comes back, 4096 is refused -/
 example : (vlanToData 4095).bind dataToVlan = .ok 4095 ∧ vlanToData 4096 = .pyError "ValueError" := by
   exact ⟨table_vlan_roundtrip 4095 (by decide), table_vlan_range 4096 (by decide)⟩
